@@ -13,6 +13,12 @@ configuration plus an operation list (step / clear / query) interpreted against 
 
 Discontinuities (range boundary, grid boundary, nearest at half a step) go through the ambiguity
 bands of the time model; ambiguous elements accept every alternative and are not counted.
+
+Known finding (proposed id ``C04-undelayed-extra-dim``): on a synapse with delay 0 (record size 1) a
+selector with the documented extra trailing dimension D is not supported by the undelayed branch
+(RuntimeError / mis-shaped result).  Every failure of such a query is reported under the single kind
+``at:undelayed_extra_dim``; the generator produces that region only once the finding is registered
+in known_findings.json (1 case in 16), so the rest of the domain is searched undisturbed.
 """
 
 from __future__ import annotations
@@ -207,7 +213,7 @@ def _check_at(case, quantity, got, exp, selvals, f64, what):
     else:
         check(got.dtype.is_floating_point, f"at:{quantity}:dtype", lambda: f"{what}: dtype {got.dtype}")
     g = got.detach().to(torch.float64).numpy()
-    rtol = _rtol(case, quantity, f64)  # float64 selectors do not make a float32 recurrence more accurate
+    rtol = _rtol(case, quantity, f64)  # f64: default dtype AND selector are float64 (else float32 accuracy)
     for idx in itertools.product(*(range(s) for s in shape)):
         acc = exp[idx]
         if acc is None:
@@ -448,7 +454,7 @@ _RULE = ("operation list (step/clear/query) on a {0} synapse; non-trivial iff so
 
 def _leg(kind):
     return Leg(name=kind, run=run_case, strategy=lambda tier, k=kind: syn_case(k, tier),
-               quick=400, thorough=4000, quick_shards=4, thorough_shards=4, nt_floor=0.3,
+               quick=600, thorough=6000, quick_shards=4, thorough_shards=4, nt_floor=0.3,
                rule=_RULE.format(kind))
 
 
